@@ -9,6 +9,7 @@ import (
 	"github.com/openconfig/gribigo/rib"
 
 	aftpb "github.com/openconfig/gribi/v1/proto/gribi_aft"
+	enums "github.com/openconfig/gribi/v1/proto/gribi_aft/enums"
 	spb "github.com/openconfig/gribi/v1/proto/service"
 	wpb "github.com/openconfig/ygot/proto/ywrapper"
 )
@@ -63,11 +64,18 @@ func vfPrimaryServer() (*Server, *spb.Uint128) {
 var vfBadV4 = []string{"", "1.1.1.1", "300.1.1.1/32", "1.1.1.1/33", "2001:db8::/32", "not-a-prefix"}
 var vfBadV6 = []string{"", "2001:db8::1", "2001:db8::/129", "1.1.1.1/32", "zz::/64"}
 
+// vfUndefinedEncap: any int32 that OpenconfigAftTypesEncapsulationHeaderType does not define (defined: 0..8).
+func vfUndefinedEncap() enums.OpenconfigAftTypesEncapsulationHeaderType {
+	v := vfI32("enum")
+	vfAssume(vfOr(v < 0, v > 8))
+	return enums.OpenconfigAftTypesEncapsulationHeaderType(v)
+}
+
 // vfMalformedEntry returns an operation whose content is invalid for ADD/REPLACE
 // (shape chosen symbolically), and whether it is also invalid for DELETE.
 func vfMalformedOp(op *spb.AFTOperation) (badForDelete bool) {
 	u := func(v uint64) *wpb.UintValue { return &wpb.UintValue{Value: v} }
-	switch vfInt("shape", 0, 24) {
+	switch vfInt("shape", 0, 28) {
 	case 0: // no entry at all
 		return true
 	case 1:
@@ -137,6 +145,14 @@ func vfMalformedOp(op *spb.AFTOperation) (badForDelete bool) {
 		return true
 	case 24:
 		op.Entry = &spb.AFTOperation_NextHop{NextHop: &aftpb.Afts_NextHopKey{Index: 77}}
+	case 25: // enum number the type does not define (any of the 2^32-9 values), next-hop encapsulate-header
+		op.Entry = &spb.AFTOperation_NextHop{NextHop: &aftpb.Afts_NextHopKey{Index: 77, NextHop: &aftpb.Afts_NextHop{EncapsulateHeader: vfUndefinedEncap()}}}
+	case 26:
+		op.Entry = &spb.AFTOperation_NextHop{NextHop: &aftpb.Afts_NextHopKey{Index: 77, NextHop: &aftpb.Afts_NextHop{DecapsulateHeader: vfUndefinedEncap()}}}
+	case 27:
+		op.Entry = &spb.AFTOperation_Ipv4{Ipv4: &aftpb.Afts_Ipv4EntryKey{Prefix: "9.9.9.9/32", Ipv4Entry: &aftpb.Afts_Ipv4Entry{NextHopGroup: u(1), DecapsulateHeader: vfUndefinedEncap()}}}
+	case 28:
+		op.Entry = &spb.AFTOperation_Ipv6{Ipv6: &aftpb.Afts_Ipv6EntryKey{Prefix: "2001:db8:9::/64", Ipv6Entry: &aftpb.Afts_Ipv6Entry{NextHopGroup: u(1), DecapsulateHeader: vfUndefinedEncap()}}}
 	}
 	return false
 }
